@@ -308,6 +308,7 @@ pub fn campaign<E: Engine>(
                     runs += 1;
                     let c = tree.current();
                     inflight.set(e.name(), &c);
+                    CASE_STARTED.store(now_s(), std::sync::atomic::Ordering::Relaxed);
                     let Ok(r) = std::panic::catch_unwind(std::panic::AssertUnwindSafe(|| e.run(&c))) else {
                         if !tree.complicate() {
                             break;
@@ -326,7 +327,9 @@ pub fn campaign<E: Engine>(
                 }
             }
             // then on the concrete case
+            CASE_STARTED.store(now_s(), std::sync::atomic::Ordering::Relaxed);
             let payload = e.minimise(best.1.clone(), &kind);
+            CASE_STARTED.store(now_s(), std::sync::atomic::Ordering::Relaxed);
             let failure = e.replay(&payload).filter(|x| x.kind == kind).unwrap_or(best.0);
             rep.found.push(Found { failure, engine: e.name().to_string(), payload, shrink_runs: runs, level: "concrete".into() });
             break;
@@ -351,6 +354,8 @@ pub fn ddmin<T: Clone>(mut items: Vec<T>, fails: &mut dyn FnMut(&[T]) -> bool, b
             let mut cand = items[..i].to_vec();
             cand.extend_from_slice(&items[end..]);
             *budget -= 1;
+            // every candidate run is a case of its own for the per-case watchdog
+            CASE_STARTED.store(now_s(), std::sync::atomic::Ordering::Relaxed);
             if fails(&cand) {
                 items = cand;
                 progressed = true;
